@@ -31,10 +31,18 @@ RULE = ("random Bayesian networks (1-7 nodes, families with up to 4 parents, CPD
         "of different name types included.  State-name ORDER disagreements between factors of one MN/FG are not "
         "generated (outside every property statement; check_model does not compare them); between CPDs of a BN "
         "they must be rejected.  "
+        "Names handed to the API (factor scopes, CPD variables, orders, markov_blanket) are equal-but-not-identical "
+        "objects (rebuilt strings/tuples, ints above 256); node, edge and order containers are lists, tuples, "
+        "one-shot generators, sets / dict views (a numpy array as `order` raises on the unchanged tree: reported, not "
+        "generated); 9-12 node chains/trees and BNs (more than 8 cliques), a variable with 257/300 states; CPD "
+        "columns typed with three decimals (sums within 0.004 of 1 but not 1; the model carries the exact Z); "
+        "optional features are drawn independently so every pair occurs.  "
         "Every conversion is bracketed by a deep snapshot of the source (nodes, edges, factor objects, value bytes, "
         "state names, the order argument).  SESSIONS on one object (MN, BN, FG): conversions re-run after add_edge, "
         "remove_edge, add_node, remove_node, clear (networkx mutators), add_factors (also with a LATER invalid "
-        "factor), remove_factors, a rejected self loop, in-place edits of a factor's values, triangulate(inplace), "
+        "factor), remove_factors, a rejected self loop, IN-PLACE edits of a factor object the network holds (one entry, "
+        "set_value, scalar product, normalize) and of a CPD object a BN holds (column values, normalize, "
+        "reorder_parents(inplace)) -- same graph, same object identities --, triangulate(inplace), "
         "mutation of a returned junction tree, add_cpds replacing a CPD, new edges/nodes in a BN; oracle = the model "
         "on the current state.  Tolerance 1e-9 RELATIVE to the model's exact rational.  Corpus: two equal factors, "
         "the 4-cycle with an isolated node, the same object twice.  Not applicable: pandas frames (no DataFrame in any "
@@ -58,6 +66,10 @@ ASSUMPTIONS = ["node names are interned to nat identifiers by the harness",
                "torch cases use float32-exact values only (small dyadics, exact zeros; no 2^-300..2^300 scaling, no "
                "near-equal duplicates, no 2^-30..2^-50 columns): the torch backend builds factors through "
                "torch.Tensor(values), i.e. float32 is its documented construction dtype",
+               "a factor that is a NODE of a FactorGraph is never edited in place: factors hash by value, the edit "
+               "changes the hash of a networkx node key and every FactorGraph method then raises ValueError('Edges "
+               "can only be between variables and factors') on the unchanged tree (reported to the coordinator); "
+               "in-place edits are exercised on the factors of Markov networks and the CPDs of Bayesian networks",
                "the factors of one Markov network / factor graph agree on each variable's state-name order: "
                "MarkovNetwork.check_model does not compare state-name orders across factors and products are "
                "positional; this is outside every property statement (C05's validation clause is about Bayesian "
@@ -140,6 +152,12 @@ def _graph(rng, shape, n):
         E = {(i, j) for i in range(9) for j in range(i + 1, 9)}
         if n == 10:
             E |= {(0, 9), (1, 9)}
+    elif shape == "chain12":    # 9-12 node chains / trees: more than 8 cliques
+        n = rng.choice([9, 10] if n <= 6 else [9, 10, 11, 12])        # n <= 6: quick tier
+        E = {(i, i + 1) for i in range(n - 1)}
+    elif shape == "tree12":
+        n = rng.choice([9, 9, 10] if n <= 6 else [9, 9, 10, 11, 12])
+        E = {(rng.randrange(max(0, i - 3), i), i) for i in range(1, n)}
     elif shape == "cycle10":    # chordless cycle on 9-10 nodes (sets of >= 9 small ints)
         n = rng.choice([9, 10])
         E = {tuple(sorted((i, (i + 1) % n))) for i in range(n)}
@@ -267,7 +285,7 @@ def _permuted_copy(rng, f, cards):
 def _bn(rng, n):
     order = list(range(n))
     rng.shuffle(order)
-    pmax = rng.choice([1, 2, 3, 4])
+    pmax = rng.choice([1, 2, 3, 4]) if n <= 8 else rng.choice([1, 2])
     edges = []
     pars = {v: [] for v in range(n)}
     for i in range(1, n):
@@ -283,7 +301,15 @@ def _bn(rng, n):
 
 
 def _column(rng, card, skew):
-    """a probability column of exact dyadics; skew: all the mass but 2^-k (k = 30..50) on one state"""
+    """a probability column of exact dyadics; skew: all the mass but 2^-k (k = 30..50) on one state;
+    skew == "dec": typed with three decimals, sum within 0.004 of 1 but not 1 (check_model tolerates 0.01)"""
+    if skew == "dec":
+        base = common.rand_column(rng, card, zeros=False)
+        col = [max(1, int(round(float(c) * 1000))) for c in base]
+        col[rng.randrange(card)] += rng.choice([-2, -1, 1, 2, 3]) + (1000 - sum(col))
+        if min(col) < 1:
+            col = [c + 1 for c in col]
+        return [[c, 1000] for c in col]
     if not skew or card == 1:
         return [[c.numerator, c.denominator] for c in common.rand_column(rng, card)]
     k = rng.choice([30, 40, 50])
@@ -299,7 +325,7 @@ def _bn_cpds(rng, n, pars, cards, skew=False):
         k = 1
         for p in ev:
             k *= cards[p]
-        cols = [_column(rng, cards[v], skew and rng.random() < 0.5) for _ in range(k)]
+        cols = [_column(rng, cards[v], skew if skew == "dec" else (skew and rng.random() < 0.5)) for _ in range(k)]
         cpds.append({"var": v, "ev": ev, "vals": [[c[r] for c in cols] for r in range(cards[v])]})
     rng.shuffle(cpds)
     return cpds
@@ -308,7 +334,8 @@ def _bn_cpds(rng, n, pars, cards, skew=False):
 def _f32(c):
     """torch cases only with values that survive float32: the DiscreteFactor/TabularCPD constructors go through
     torch.Tensor(values) (float32) on the unchanged tree (reported; construction is C04/C05)"""
-    if c.get("backend") == "torch" and (c.get("vstyle") == "mag" or c.get("dup") == "near" or c.get("skew")):
+    if c.get("backend") == "torch" and (c.get("vstyle") == "mag" or c.get("dup") == "near" or c.get("skew")
+                                        or c.get("shape") == "bigcard"):
         c["backend"] = "numpy"
     return c
 
@@ -316,12 +343,13 @@ def _f32(c):
 def _opts(rng, i, name_styles=None):
     return {"style": rng.choice(name_styles or NAME_STYLES), "states": rng.choice(STATE_STYLES),
             "valsrc": rng.choice(VALSRC), "backend": "torch" if i % 6 == 5 else "numpy",
+            "ctype": rng.choice(["list", "tuple", "gen", "set"]),
             "nameseed": rng.randint(0, 10**9)}
 
 
 def _mn_case(rng, shape, nmax, dups, mal=0.08):
     n, edges = _graph(rng, shape, rng.randint(3, nmax))
-    wide = shape in ("wide9", "cycle10")
+    wide = shape in ("wide9", "cycle10", "chain12", "tree12")
     cards = [2] * n if wide else [rng.choice([1, 2, 2, 2, 3]) for _ in range(n)]
     if wide and rng.random() < 0.5:
         cards[rng.randrange(n)] = 1
@@ -377,14 +405,16 @@ def cases(tier, seed):
     rng = random.Random(seed)
     out = []
     q = tier == "quick"
-    nb, nm, nf, n2, nw, ns, nbs, nfs = (150, 400, 110, 30, 8, 90, 40, 40) if q else (1400, 4000, 900, 250, 60, 900, 400, 400)
+    nb, nm, nf, n2, nw, ns, nbs, nfs = (150, 400, 110, 30, 8, 90, 50, 40) if q else (1400, 4000, 900, 250, 80, 900, 500, 400)
     nmax = 6 if q else 7
     # ---- Bayesian networks
     for i in range(nb):
         n = rng.choice([1, 2, 3, 4, 5, 6, nmax, nmax])
+        if i % 25 == 7:
+            n = rng.choice([9, 9, 10] if q else [9, 10, 11, 12])        # mid-sized: more than 8 cliques
         edges, pars, topo = _bn(rng, n)
-        cards = [rng.choice([1, 2, 2, 2, 3, 3]) for _ in range(n)]
-        skew = rng.random() < 0.25
+        cards = [rng.choice([1, 2, 2, 2, 3, 3]) for _ in range(n)] if n <= 8 else [2] * n
+        skew = rng.choice([False, False, True, "dec"]) if n <= 8 else rng.choice([False, "dec"])
         cpds = _bn_cpds(rng, n, pars, cards, skew=skew)
         nodes = list(range(n))
         rng.shuffle(nodes)
@@ -405,8 +435,20 @@ def cases(tier, seed):
         c.update(_opts(rng, i))
         out.append(c)
     for i in range(nw):
-        c = _mn_case(rng, ["wide9", "cycle10"][i % 2], nmax, [None, "exact", "object"])
-        c.update(_opts(rng, i, ["int", "int", "str", "mixed"]))
+        c = _mn_case(rng, ["wide9", "cycle10", "chain12", "tree12"][i % 4], nmax, [None, "exact", "object"])
+        c.update(_opts(rng, i, ["int", "bigint", "str", "mixed"]))
+        c["backend"] = "numpy"
+        out.append(c)
+    for i in range(2 if q else 12):     # a variable with more than 256 states
+        big = rng.choice([257, 300])
+        cards = [big, rng.choice([1, 2]), 2]
+        fs = [{"vars": [0, 1], "vals": _vals(rng, big * cards[1])}, {"vars": [0], "vals": _vals(rng, big)},
+              {"vars": [1, 2], "vals": _vals(rng, cards[1] * 2)}]
+        rng.shuffle(fs)
+        c = {"kind": "mn", "shape": "bigcard", "n": 3, "nodes": [0, 1, 2], "edges": [[0, 1], [2, 1]], "cards": cards,
+             "factors": fs, "dup": None, "vstyle": "small", "malformed": None, "orders": [[0, 1, 2]],
+             "addmode": "once", "build": "nodes"}
+        c.update(_opts(rng, i))
         c["backend"] = "numpy"
         out.append(c)
     for i in range(n2):
@@ -500,7 +542,34 @@ def _names(case):
         pool = [x for x in SUBSTR_POOL if not (st.endswith("nophi") and x.startswith("phi"))]
         rng.shuffle(pool)
         return pool[:case["n"]]
+    if st == "bigint":      # ints above 256 are not cached objects
+        pool = list(range(1000, 1000 + case["n"] + 3))
+        rng.shuffle(pool)
+        return pool[:case["n"]]
     return common.node_names(rng, case["n"], st)
+
+
+def _fresh(x):
+    """an equal but NOT identical name object (the API must compare names with ==, never with `is`)"""
+    if isinstance(x, str):
+        return (x + "#")[:-1] if x else x
+    if isinstance(x, tuple):
+        return tuple(_fresh(y) for y in list(x))
+    if isinstance(x, int) and not isinstance(x, bool):
+        return int(str(x))
+    return x
+
+
+def _ctype(case, seq):
+    """the same items in another documented container type (one-shot generator, tuple, order-preserving view)"""
+    ct = case.get("ctype", "list")
+    if ct == "tuple":
+        return tuple(seq)
+    if ct == "gen":
+        return (x for x in list(seq))
+    if ct == "set":
+        return dict.fromkeys(seq).keys()
+    return list(seq)
 
 
 def _state_names(case, v):
@@ -541,12 +610,12 @@ def _close(a, b):
 def _mk_factor(case, names, f):
     import numpy as np
     from pgmpy.factors.discrete import DiscreteFactor
-    vs = [names[v] for v in f["vars"]]
+    vs = [_fresh(names[v]) for v in f["vars"]]
     card = [case["cards"][v] for v in f["vars"]]
     vals = [float(_fr(x)) for x in f["vals"]]
     kw = {}
     if case["states"] != "default":
-        kw["state_names"] = {names[v]: _state_names(case, v) for v in f["vars"]}
+        kw["state_names"] = {_fresh(names[v]): _state_names(case, v) for v in f["vars"]}
     src = case.get("valsrc", "list")
     if src == "ndarray":
         return DiscreteFactor(vs, card, np.ascontiguousarray(vals, dtype=np.float64), **kw)
@@ -679,14 +748,14 @@ def _build_mn(case, names, nodes=None, edges=None, factors=None):
     from pgmpy.models import MarkovNetwork
     nodes = case["nodes"] if nodes is None else nodes
     edges = case["edges"] if edges is None else edges
-    el = [(names[a], names[b]) for a, b in edges]
+    el = [(names[a], _fresh(names[b])) for a, b in edges]
     if case.get("build") == "ebunch" and el:
-        mn = MarkovNetwork(el)
-        mn.add_nodes_from([names[v] for v in nodes])
+        mn = MarkovNetwork(_ctype(case, el))
+        mn.add_nodes_from(_ctype(case, [names[v] for v in nodes]))
     else:
         mn = MarkovNetwork()
-        mn.add_nodes_from([names[v] for v in nodes])
-        mn.add_edges_from(el)
+        mn.add_nodes_from(_ctype(case, [names[v] for v in nodes]))
+        mn.add_edges_from(_ctype(case, el))
     fs = _mk_factors(case, names, case["factors"] if factors is None else factors)
     if case.get("addmode") == "each":
         for phi in fs:
@@ -810,11 +879,11 @@ def _mk_cpd(case, names, c, mismatch=None):
     vals = [[float(_fr(x)) for x in row] for row in c["vals"]]
     kw = {}
     if case["states"] != "default":
-        sn = {names[u]: _state_names(case, u) for u in [v] + ev}
+        sn = {_fresh(names[u]): _state_names(case, u) for u in [v] + ev}
         if mismatch and mismatch[1] == v and mismatch[0] in ev:
             sn[names[mismatch[0]]] = sn[names[mismatch[0]]][::-1]
         kw["state_names"] = sn
-    return TabularCPD(names[v], cards[v], vals, evidence=[names[u] for u in ev] or None,
+    return TabularCPD(_fresh(names[v]), cards[v], vals, evidence=[_fresh(names[u]) for u in ev] or None,
                       evidence_card=[cards[u] for u in ev] or None, **kw)
 
 
@@ -866,7 +935,7 @@ def _bn_core(P, drv, case, bn, nodes, edges, cpds_by_var, names, idx, states, ta
     if not _torch(case) or TORCH_PARTITION:
         z = float(mm.get_partition_function())
         zm = common.frac(drv.call("c14_partition", [cards, mfs]))
-        if not _close(z, zm) or not _close(z, 1):
+        if not _close(z, zm):       # = 1 only when every column is exactly normalised; the model knows
             P.add("impl!=model:bn-mn-partition", {"what": what, "impl": z, "model": float(zm)})
     allv = sorted(nodes)
     tab = drv.call("c14_joint", [cards, mfs, allv])
@@ -945,14 +1014,71 @@ def run_bnsess(case, drv):
         cols = [_column(rng, cards[v], False) for _ in range(k)]
         return {"var": v, "ev": list(ev), "vals": [[c[r] for c in cols] for r in range(cards[v])]}
 
+    def relayout(vals, ev, new_ev):
+        """the same conditional table with the evidence listed in another order"""
+        oc, ncard = [cards[p] for p in ev], [cards[p] for p in new_ev]
+        out = []
+        for row in vals:
+            nr = []
+            for t in itertools.product(*[range(c) for c in ncard]):
+                cfg = dict(zip(new_ev, t))
+                col = 0
+                for p, c in zip(ev, oc):
+                    col = col * c + cfg[p]
+                nr.append(row[col])
+            out.append(nr)
+        return out
+
+    def poke_cpd(mode):
+        """edit, IN PLACE, a CPD object the network holds (same graph, same CPD identities)"""
+        v = rng.choice(sorted(cp))
+        cpd = bn.get_cpds(_fresh(names[v]))
+        ev = cp[v]["ev"]
+        ncol = len(cp[v]["vals"][0])
+        col = rng.randrange(ncol)
+        t, r = [], col
+        for p in reversed(ev):
+            t.append(r % cards[p])
+            r //= cards[p]
+        sel = (slice(None),) + tuple(reversed(t))
+        if mode == "reorder" and len(ev) >= 2:
+            new_ev = list(ev)
+            while new_ev == ev:
+                rng.shuffle(new_ev)
+            cpd.reorder_parents([_fresh(names[p]) for p in new_ev], inplace=True)
+            cp[v] = {"var": v, "ev": new_ev, "vals": relayout(cp[v]["vals"], ev, new_ev)}
+            return "reorder"
+        if mode == "normalize":
+            ks = [rng.randint(1, 9) for _ in range(cards[v])]
+            for r_, k in enumerate(ks):
+                cpd.values[(r_,) + sel[1:]] = float(k)
+            cpd.normalize(inplace=True)
+            newcol = [[k, sum(ks)] for k in ks]
+            mode = "normalize"
+        else:
+            newcol = _column(rng, cards[v], False)
+            for r_, x in enumerate(newcol):
+                cpd.values[(r_,) + sel[1:]] = float(_fr(x))
+            mode = "values"
+        cp[v] = dict(cp[v])
+        cp[v]["vals"] = [list(row) for row in cp[v]["vals"]]
+        for r_ in range(cards[v]):
+            cp[v]["vals"][r_][col] = newcol[r_]
+        return mode
+
     _bn_core(P, drv, case, bn, nodes, edges, cp, names, idx, states, tags, "bnsess step 0")
-    for step in range(1, case["nops"] + 1):
+    forced = case.get("ops")
+    for step in range(1, (len(forced) if forced else case["nops"]) + 1):
         if P.items:
             break
         es = {tuple(e) for e in edges}
         cand = [(a, b) for i, a in enumerate(topo) for b in topo[i + 1:] if (a, b) not in es and len(cp[b]["ev"]) < 3]
-        op = rng.choice(["replace", "replace", "add_edge", "add_edge", "add_node"])
-        if op == "add_edge" and cand:
+        op = forced[step - 1] if forced else rng.choice(
+            ["replace", "add_edge", "add_edge", "add_node", "poke_cpd:values", "poke_cpd:values",
+             "poke_cpd:normalize", "poke_cpd:reorder"])
+        if op.startswith("poke_cpd"):
+            op = "poke_cpd:" + poke_cpd(op.split(":")[1])
+        elif op == "add_edge" and cand:
             a, b = rng.choice(cand)
             bn.add_edge(names[a], names[b])
             edges.append([a, b])
@@ -983,12 +1109,16 @@ def run_bnsess(case, drv):
 
 
 # ------------------------------------------------------------------ MN
-def _tri_check_obj(P, drv, mn, ids_nodes, ids_edges, cards, idx, kw, label, tags):
+def _tri_check_obj(P, drv, mn, ids_nodes, ids_edges, cards, idx, kw, label, tags, case=None):
     """mn.triangulate(**kw) on the given object whose graph is (ids_nodes, ids_edges)"""
     inplace = kw.get("inplace", False)
     before = _snap(mn)
     given_names = list(kw["order"]) if kw.get("order") else None
-    res, exc, order = _spy(lambda: mn.triangulate(**kw))
+    kw2 = dict(kw)
+    if kw.get("order") and case is not None:
+        # equal-but-not-identical names in another container type (tuple, one-shot generator, dict view)
+        kw2["order"] = _ctype(case, [_fresh(v) for v in kw["order"]])
+    res, exc, order = _spy(lambda: mn.triangulate(**kw2))
     order = [idx[v] for v in order]
     edge_nodes = {v for e in ids_edges for v in e}
     iso = sorted(set(ids_nodes) - edge_nodes)
@@ -1048,7 +1178,7 @@ def _tri_check_obj(P, drv, mn, ids_nodes, ids_edges, cards, idx, kw, label, tags
 
 def _tri_check(P, drv, case, names, idx, kw, label, tags):
     mn, _ = _build_mn(case, names)
-    _tri_check_obj(P, drv, mn, case["nodes"], case["edges"], case["cards"], idx, kw, label, tags)
+    _tri_check_obj(P, drv, mn, case["nodes"], case["edges"], case["cards"], idx, kw, label, tags, case)
 
 
 def _fg_struct(P, drv, mn, fs, names, ids_nodes, ids_edges, mfs):
@@ -1123,7 +1253,7 @@ def run_mn(case, drv):
         _pure(P, before, mn, "get_partition_function")
     # markov blanket, chordality
     for v in ids_nodes:
-        if {idx[u] for u in mn.markov_blanket(names[v])} != set(drv.call("c14_blanket", [ids_nodes, ids_edges, v])):
+        if {idx[u] for u in mn.markov_blanket(_fresh(names[v]))} != set(drv.call("c14_blanket", [ids_nodes, ids_edges, v])):
             P.add("impl!=model:markov_blanket", {"v": v})
             break
     chordal = bool(drv.call("c14_chordal", [ids_nodes, ids_edges]))
@@ -1244,7 +1374,7 @@ def run_sess(case, drv):
         _tri_check_obj(P, drv, mn, nodes, edges, cards, idx, {"heuristic": sess_h}, what + " tri", tags)
         o = sorted({v for e in edges for v in e})
         rng.shuffle(o)
-        _tri_check_obj(P, drv, mn, nodes, edges, cards, idx, {"order": [names[v] for v in o]}, what + " tri order", tags)
+        _tri_check_obj(P, drv, mn, nodes, edges, cards, idx, {"order": [names[v] for v in o]}, what + " tri order", tags, case)
         if strnames:
             _fg_struct(P, drv, mn, objs, names, nodes, edges, mfs)
         if _connected(nodes, edges):
@@ -1408,20 +1538,41 @@ def run_sess(case, drv):
             nodes.remove(v)
             edges = [e for e in edges if v not in e]
         elif op == "poke" and fd:
+            # IN-PLACE edit of a factor object the network holds: one entry, set_value, scalar product, normalize
             i = rng.randrange(len(fd))
-            k = rng.randrange(len(fd[i]["vals"]))
-            nv = _vals(rng, 1)[0]
+            phi = objs[i]
+            mode = rng.choice(["values", "values", "set_value", "scalar", "normalize"])
+            vals = [list(x) for x in fd[i]["vals"]]
+            k = rng.randrange(len(vals))
             shape = [cards[v] for v in fd[i]["vars"]]
             t, r = [], k
             for c in reversed(shape):
                 t.append(r % c)
                 r //= c
-            objs[i].values[tuple(reversed(t))] = float(_fr(nv))   # in-place edit of a factor's table
+            t = tuple(reversed(t))
+            tot = sum(_fr(x) for x in vals)
+            if mode == "scalar":
+                phi.product(2.0, inplace=True)
+                vals = [[2 * x[0], x[1]] for x in vals]
+            elif mode == "normalize" and tot != 0:
+                phi.normalize(inplace=True)
+                vals = [[(_fr(x) / tot).numerator, (_fr(x) / tot).denominator] for x in vals]
+            elif mode == "set_value" and all(isinstance(names[v], str) for v in fd[i]["vars"]):
+                nv = _vals(rng, 1)[0]
+                # a state is addressed by its name when that is a string, else by its number (set_value's rule)
+                phi.set_value(float(_fr(nv)), **{names[v]: (states[v][ti] if isinstance(states[v][ti], str) else ti)
+                                                 for v, ti in zip(fd[i]["vars"], t)})
+                vals[k] = nv
+            else:
+                mode = "values"
+                nv = _vals(rng, 1)[0]
+                phi.values[t] = float(_fr(nv))
+                vals[k] = nv
             for j in range(len(fd)):
-                if objs[j] is objs[i]:
+                if objs[j] is phi:
                     fd[j] = dict(fd[j])
-                    fd[j]["vals"] = [list(x) for x in fd[j]["vals"]]
-                    fd[j]["vals"][k] = nv
+                    fd[j]["vals"] = [list(x) for x in vals]
+            op = "poke:" + mode
         elif op == "tri_inplace" and valid:
             h = rng.choice(HEUR)
             ne = _tri_check_obj(P, drv, mn, nodes, edges, cards, idx, {"heuristic": h, "inplace": True},
